@@ -110,9 +110,16 @@ comprehension they spell (engine, `Executor.accumulator_loop`; only when the acc
 before the loop, the body is straight-line with pure temporaries and the loop variable is not read afterwards).
 After that, on the second run (209 check runs over the 24 refactors), no check raises an alarm and 23 of the 24
 keep every function proved; `RFC_5` (a loop with `extend` instead of `chain.from_iterable` in `RunningOrder.script`) stays a
-tool limit in three checks.  What remains out of reach by design: a refactor that introduces a
-genuinely new loop (e.g. `extend` in a loop instead of `chain.from_iterable`) needs a new invariant; the function is
-then reported as a tool limit and decided by the bounded check only.
+tool limit in three checks.  (c) A second set of 24 refactors of other kinds (`refactors/RG?_n/`: extracted helper functions and methods, inlined
+helpers and properties, reordered independent statements, changed log / message formatting, named constants for tag
+names, tuple indexing instead of unpacking, positional instead of keyword arguments): 232 check runs, **no alarm**.
+On the first run 10 of them lost proofs, all for two reasons that are now handled by the engine: module-level named
+constants (`_STORY_TAG = 'story'`) are resolved to their value when the name is bound exactly once, and message texts
+built with `str.format` / `%` are opaque strings like f-strings (`'{}ID'.format(tag)`, `'%sID' % tag` and
+`tag + 'ID'` are the ID-tag name like `f'{tag}ID'`).  What remains out of reach by design: a refactor that
+introduces a genuinely new loop or moves a loop that carries an invariant into a new helper function (`RGB_4`,
+`RGD_6`; `extend` in a loop instead of `chain.from_iterable`, `RFC_5`) needs a new invariant / contract; the
+function is then reported as a tool limit and decided by the bounded check only.
 ''' % (len(rows), nrow[1], nrow[2], nrow[3], nrow[4], len(rows), '\n'.join(rows))
 p = os.path.join(V, 'DESIGN.md')
 s = open(p).read()
